@@ -124,6 +124,7 @@ type cluster struct {
 	httpLog   []*simrt.HTTPReqInfo
 	httpFault func(r *simrt.HTTPReqInfo) simrt.HTTPVerdict
 	hookFn    func(g *simrt.G, name string, args ...interface{})
+	diskArms  map[string]*clDiskArm // node name -> one-shot data-file fault (guarded by mu)
 }
 
 type obsFrame struct {
@@ -215,6 +216,7 @@ func newCluster(w *simrt.World, res *Result, root string, rf int, size int64, nr
 			c.hookFn(g, name, args...)
 		}
 	}
+	w.DiskFn = c.diskFn
 	simrt.SetNodeVarInit("replica.HoleCreatorChan", holeChanInit)
 	os.Setenv("REPLICATION_FACTOR", fmt.Sprint(rf))
 	c.ctrlN = w.AddNode("ctrl", "10.0.0.1")
@@ -572,4 +574,35 @@ func sortedNames(m map[string]bool) []string {
 	}
 	sort.Strings(ks)
 	return ks
+}
+
+// clDiskArm: the (skip+1)-th data-file call of the armed direction on that
+// replica fails once (R10).
+type clDiskArm struct {
+	read bool
+	skip int
+	kind simrt.DiskVerdict
+}
+
+func (c *cluster) diskFn(dc simrt.DiskCall) simrt.DiskVerdict {
+	if dc.G == nil || dc.G.Node == nil {
+		return simrt.DiskOK
+	}
+	c.mu.Lock()
+	defer c.mu.Unlock()
+	a := c.diskArms[dc.G.Node.Name]
+	if a == nil || a.read == dc.Write {
+		return simrt.DiskOK
+	}
+	if a.skip > 0 {
+		a.skip--
+		return simrt.DiskOK
+	}
+	delete(c.diskArms, dc.G.Node.Name)
+	if a.read {
+		c.res.stat("fault_disk_read_eio_fired", 1)
+		return simrt.DiskEIO
+	}
+	c.res.stat(fmt.Sprintf("fault_disk_write_%s_fired", []string{"ok", "eio", "enospc", "short"}[int(a.kind)]), 1)
+	return a.kind
 }
